@@ -1,4 +1,15 @@
-//! Out-of-tree Kani harnesses over the public API of /repo's crates.
+//! Out-of-tree Kani harnesses over the public API of /repo's crates (plus re-instantiated private leaf files).
 #![allow(unused)]
+// names that re-instantiated repository files import through `crate::`
+pub use aelys_air::{AirProgram, AirStructDef, AirStructField, AirType, CallingConv, TypeParamId};
+
+#[cfg(kani)]
+pub(crate) fn stub_random_state() -> std::hash::RandomState {
+    // the real one reads getrandom(2), which CBMC cannot execute; fixed keys
+    unsafe { std::mem::transmute::<(u64, u64), std::hash::RandomState>((0x9E37_79B9_7F4A_7C15, 0x2545_F491_4F6C_DD1D)) }
+}
+
 #[cfg(kani)]
 mod c12_value;
+#[cfg(kani)]
+mod c18_layout;
